@@ -99,33 +99,49 @@ def run(tier):
     # (3) preset == resolved array for dimensionality and clustering
     n_eq = 24 if tier == "quick" else 240
     skipped_nan = 0
+    from .. import structures
+
+    crystalline = [x for x in structures.c01_family(tier) if x[0] in ("slabads", "rsstack", "two", "crystallite", "stack")]
+    # inputs where the radii decide which atoms stay in a cluster come first (lifted same-species adatoms, shared-anion stacks)
+    crystalline.sort(key=lambda x: 0 if (x[0] == "slabads" and x[1].get("ads") == x[1]["el"]) else 1 if x[0] == "rsstack" else 2)
+    crystalline = crystalline[0::2] + crystalline[1::2]
     for k in range(n_eq):
         rng = rng_for("c19-equiv", k)
-        sysm = _random_structure(rng, with_missing_vdw=(k % 2 == 1))
+        if k % 2 == 0 and crystalline:
+            kind, desc = crystalline[(k // 2) % len(crystalline)]
+            sysm, _ = structures.build(kind, desc)
+            label = {"kind": kind, "desc": desc}
+        else:
+            sysm = _random_structure(rng, with_missing_vdw=(k % 4 == 1))
+            label = {"kind": "random", "k": k}
         zs = sysm.get_atomic_numbers()
-        for p in PRESETS:
+        shared = SBC()  # one clustering object reused across the presets of this structure (history must not matter)
+        for p in ["vdw", "vdw_covalent", "covalent"]:
             code_radii = matid.geometry.get_radii(p, zs)
             if not np.all(np.isfinite(code_radii)):
                 skipped_nan += 1  # the code's own preset is NaN here; judged by (1), unsafe to run further
                 continue
-            thr = float(rng.choice([0.4, 1.0, 2.0, 3.5]))
-            a = _enc_dim(matid.geometry.get_dimensionality(sysm.copy(), thr, radii=p, return_clusters=True))
-            b = _enc_dim(matid.geometry.get_dimensionality(sysm.copy(), thr, radii=np.array(code_radii, dtype=float),
-                                                            return_clusters=True))
-            add({"ev": "equiv", "what": "dimensionality", "preset": p, "zs": [int(z) for z in zs],
-                 "array": [enc(v) for v in code_radii], "with_preset": a, "with_array": b, "k": k, "thr": thr})
-            run.count()
-            run.nontrivial(("equiv-dim", k, p))
-            if k % 3 == 0:
+            thr = float(rng.choice([0.3, 0.65, 1.0, 2.0, 3.5]))
+            if len(sysm) <= 60:
+                a = _enc_dim(matid.geometry.get_dimensionality(sysm.copy(), thr, radii=p, return_clusters=True))
+                b = _enc_dim(matid.geometry.get_dimensionality(sysm.copy(), thr, radii=np.array(code_radii, dtype=float),
+                                                                return_clusters=True))
+                add({"ev": "equiv", "what": "dimensionality", "preset": p, "zs": [int(z) for z in zs],
+                     "array": [enc(v) for v in code_radii], "with_preset": a, "with_array": b, "k": k, "thr": thr, "input": label})
+                run.count()
+                run.nontrivial(("equiv-dim", k, p))
+            if k % 2 == 0 or k % 3 == 0:
+                bt = float(rng.choice([0.3, 0.65]))
                 try:
-                    ca = _enc_sbc(SBC().get_clusters(sysm.copy(), radii=p))
-                    cb = _enc_sbc(SBC().get_clusters(sysm.copy(), radii=np.array(code_radii, dtype=float)))
+                    ca = _enc_sbc(shared.get_clusters(sysm.copy(), radii=p, bond_threshold=bt))
+                    cb = _enc_sbc(SBC().get_clusters(sysm.copy(), radii=np.array(code_radii, dtype=float), bond_threshold=bt))
                 except ValueError:
                     continue
                 add({"ev": "equiv", "what": "sbc", "preset": p, "zs": [int(z) for z in zs],
-                     "array": [enc(v) for v in code_radii], "with_preset": ca, "with_array": cb, "k": k})
+                     "array": [enc(v) for v in code_radii], "with_preset": ca, "with_array": cb, "k": k, "input": label})
                 run.count()
-                run.nontrivial(("equiv-sbc", k, p))
+                if ca:
+                    run.nontrivial(("equiv-sbc", k, p))
     run.notes["equiv_skipped_because_code_radii_nan"] = skipped_nan
 
     tp = os.path.join(d, "trace.ndjson")
